@@ -18,8 +18,8 @@ package keeper
 // of the whole fee-collector balance into the distribution module.
 //@ define atMoved() = traceN() == old(traceN()) + 1 && traceAt(old(traceN())) == mkEv(51, g("x/feedistribution/types.ModuleName"), 0)
 //@ func (Keeper).AllocateTokens
-//@   flag havoc=AllocateTokensToValidator,GetAllExocoreValidators,ValidatorByConsAddrForChainID
-//@   modifies state(ctx), trace, heap["x/feedistribution/types.FeePool"]
+//@   flag havoc=GetAllExocoreValidators,ValidatorByConsAddrForChainID
+//@   modifies state(ctx), trace, heap["x/feedistribution/types.FeePool"], ghost(staked)
 //@   before[C17.at.whole]  SendCoinsFromModuleToModule requires arg_amt == res_GetAllBalances_0 && arg_senderModule == k.feeCollectorName &&
 //@        arg_recipientModule == g("x/feedistribution/types.ModuleName") && traceN() == old(traceN())
 //@   before[C17.at.moved]  SetFeePool requires atMoved()
@@ -31,17 +31,19 @@ package keeper
 // C17: the claims booked for one operator's stakers add up to exactly the amount handed in: what the stakers get
 // (ghost counter `staked`: the sum of all single-staker allocations, per denomination) plus what goes to the
 // community pool (truncation dust, or everything when nobody has power) equals rewardToAllStakers. (The lookup of
-// the operator's AVS list fails only on a malformed store key; on that path nothing is booked: not covered.)
+// the operator's AVS list fails only on a malformed store key; on that path, and only there, nothing is booked.)
 //@ func (Keeper).AllocateTokensToSingleStaker
 //@   flag assumed
 //@   modifies state(ctx)
 //@   bumps staked by dcv(reward)
 
 //@ func (Keeper).AllocateTokensToStakers
-//@   requires feePool != nil && dcv(rewardToAllStakers) >= 0 && dcv(feePool.CommunityPool) >= 0
+//@   requires feePool != nil
 //@   flag pure=GetOptedInAVSForOperator,GetAVSSupportedAssets,GetStakersByOperator,CalculateUSDValueForStaker
 //@   modifies state(ctx), *feePool, ghost(staked)
-//@   ensures[C17.ats.sum] res_GetOptedInAVSForOperator_1 == nil ==> dcv(feePool.CommunityPool) - old(dcv(feePool.CommunityPool)) + (ghost(staked) - old(ghost(staked))) == dcv(rewardToAllStakers)
+//@   ensures[C17.ats.sum] dcv(feePool.CommunityPool) - old(dcv(feePool.CommunityPool)) + (ghost(staked) - old(ghost(staked))) == dcv(rewardToAllStakers) ||
+//@        (dcv(feePool.CommunityPool) == old(dcv(feePool.CommunityPool)) && ghost(staked) == old(ghost(staked)))
+//@   ensures[C17.ats.noavs] dcv(feePool.CommunityPool) - old(dcv(feePool.CommunityPool)) + (ghost(staked) - old(ghost(staked))) != dcv(rewardToAllStakers) ==> res_GetOptedInAVSForOperator_1 != nil
 //@ loop #1
 //@   invariant true
 //@ loop #2
@@ -51,3 +53,16 @@ package keeper
 //@ loop #4
 //@   invariant[C17.ats.sum] dcv(remaining) == dcv(rewardToAllStakers) - (ghost(staked) - old(ghost(staked)))
 //@   invariant *feePool == old(*feePool)
+
+// C17: a validator's portion is split by its commission rate: the commission (tokens * rate, rounded as MulDec does) is
+// added to the accumulated commission, exactly the rest is handed to the stakers' allocation (whose own contract books
+// it completely): commission + staker rewards + community-pool dust == tokens.
+//@ func (Keeper).AllocateTokensToValidator
+//@   requires feePool != nil
+//@   flag pure=OperatorInfo,GetOperator,GetCommission
+//@   modifies state(ctx), *feePool, ghost(staked)
+//@   before[C17.atv.commission] SetValidatorAccumulatedCommission requires
+//@        dcv(arg_commission.Commission) == dcv(res_GetValidatorAccumulatedCommission_0.Commission) + dcv(res_MulDec_0)
+//@   before[C17.atv.shared] AllocateTokensToStakers requires dcv(arg_rewardToAllStakers) == dcv(tokens) - dcv(res_MulDec_0) && arg_feePool == feePool
+//@   ensures[C17.atv.sum] dcv(feePool.CommunityPool) - old(dcv(feePool.CommunityPool)) + (ghost(staked) - old(ghost(staked))) == dcv(tokens) - dcv(res_MulDec_0) ||
+//@        (dcv(feePool.CommunityPool) == old(dcv(feePool.CommunityPool)) && ghost(staked) == old(ghost(staked)))
